@@ -1311,7 +1311,7 @@ class MyPyAstVisitor:
                             if (
                                 qualified_import.qualified_name in {module_name, module_qname}
                                 and (
-                                    (qualified_import.alias is None and public_name)
+                                    (qualified_import.alias is None and not is_internal(module_name))
                                     or (qualified_import.alias is not None and not is_internal(qualified_import.alias))
                                 )
                                 and public_name
